@@ -138,6 +138,8 @@ package parser
 //@ func (p *parser) parseConstValue(node *node32) (cv *ConstValue, err error)
 //@   requires p != nil && node != nil && wfPEG(p)
 //@   ensures err == nil ==> cv != nil && cv.TypedValue != nil && cv.Extra == nil
+//@   proves ncalls("strconv.ParseFloat") > 0 ==> err == nil && cv.Type == ConstType_ConstDouble && cv.TypedValue.Double != nil && *cv.TypedValue.Double == callret("strconv.ParseFloat", 0)
+//@   proves ncalls("strconv.ParseFloat") > 0 && len(callarg("strconv.ParseFloat", 0)) > 0 ==> callarg("strconv.ParseFloat", 0)[len(callarg("strconv.ParseFloat", 0))-1] != 32 && callarg("strconv.ParseFloat", 0)[len(callarg("strconv.ParseFloat", 0))-1] != 9
 //@   loop 1 invariant (n == nil || pegowner(n) == ruleConstList) && forall k int :: 0 <= k && k < len(ret) ==> ret[k] != nil
 //@   loop 2 invariant (n == nil || (pegowner(n) == ruleConstMap && n.pegRule != ruleCOLON && (n.pegRule == ruleConstValue ==> pegnext(n, ruleCOLON)))) && forall k int :: 0 <= k && k < len(ret) ==> ret[k] != nil
 
